@@ -84,9 +84,19 @@ func (g *ProgGen) natFamily(k int) natFam {
 	fun(f.consume, one(), tCase(ast.N("n"),
 		br(f.lz, "c", tPrint(g.plabel("z"), tWait("c", tClose()))),
 		br(f.ls, "c", tPrint(g.plabel("s"), tCall(f.consume, "c")))), "n")
+	// the inner cut may re-use the live name it consumes (`h : nat <- new self.s<h>`), and its
+	// annotation may leave the mode to inference (the definition fixes it)
+	dname, dann := "d", nat()
+	if g.Bool("reusecutname") {
+		dname = "h"
+		g.feat("axiom-cut-reuses-name")
+	}
+	if g.Bool("modelessann") {
+		dann = natT()
+	}
 	fun(f.double, nat(), tCase(ast.N("x"),
 		br(f.lz, "x'", tSelSelf(f.lz, "x'")),
-		br(f.ls, "x'", tNew("h", nil, tCall(f.double, "x'"), tNew("d", nat(), tSelSelf(f.ls, "h"), tSelSelf(f.ls, "d"))))), "x")
+		br(f.ls, "x'", tNew("h", nil, tCall(f.double, "x'"), tNew(dname, dann, tSelSelf(f.ls, "h"), tSelSelf(f.ls, dname))))), "x")
 	fun(f.add, nat(), tCase(ast.N("a"),
 		br(f.lz, "c", tWait("c", tFwd("b"))),
 		br(f.ls, "c", tNew("r", nil, tCall(f.add, "c", "b"), tSelSelf(f.ls, "r")))), "a", "b")
@@ -338,4 +348,56 @@ func (g *ProgGen) pairServer(k int, f natFam) {
 	main := num("dx", num("dy", outer))
 	g.Prcs = append(g.Prcs, &ast.Decl{Kind: ast.DPrc, Providers: []string{fmt.Sprintf("pmain%d", k)}, Ty: one(), Body: main})
 	g.feat("pair-server-split")
+}
+
+
+// relayScenario: two type names with the same body; a value built at one name is relayed to the
+// other by a forward and by calls, i.e. used only through type equalities between the two names.
+func (g *ProgGen) relayScenario(k int) {
+	m := ast.Mode(g.Pick(4, "relaymode"))
+	tok, ack := fmt.Sprintf("tok%d", k), fmt.Sprintf("ack%d", k)
+	mkBody := func() *ast.Ty {
+		switch g.Pick(3, "relaybody") {
+		case 0:
+			return ast.One(m)
+		case 1:
+			return ast.Tensor(m, ast.One(m), ast.One(m))
+		}
+		ls := g.TG.labels(2)
+		return ast.Plus(m, ast.Br{L: ls[0], T: ast.One(m)}, ast.Br{L: ls[1], T: ast.One(m)})
+	}
+	b1 := mkBody()
+	b2 := b1.Clone()
+	b1.Ann, b2.Ann = m.String(), m.String()
+	g.TypeDecl = append(g.TypeDecl, &ast.Decl{Kind: ast.DType, Name: tok, Ty: b1}, &ast.Decl{Kind: ast.DType, Name: ack, Ty: b2})
+	tokT := func() *ast.Ty { return annOf(m, ast.NameTy(m, tok)) }
+	ackT := func() *ast.Ty { return annOf(m, ast.NameTy(m, ack)) }
+	one := func() *ast.Ty { return annOf(m, ast.One(m)) }
+	mk, relay, use := fmt.Sprintf("mktok%d", k), fmt.Sprintf("relay%d", k), fmt.Sprintf("usetok%d", k)
+	// a closed provider of the body type
+	var mkBodyT *ast.Term
+	switch b1.K {
+	case ast.KOne:
+		mkBodyT = tClose()
+	case ast.KTensor:
+		mkBodyT = tNew("p", one(), tClose(), tNew("q", one(), tClose(), &ast.Term{Kind: ast.TSend, X: ast.SelfNm, Y: ast.N("p"), Z: ast.N("q")}))
+	default:
+		mkBodyT = tNew("p", one(), tClose(), tSelSelf(b1.Brs[0].L, "p"))
+	}
+	var useBodyT *ast.Term
+	switch b1.K {
+	case ast.KOne:
+		useBodyT = tWait("x", tPrint(g.plabel("used"), tClose()))
+	case ast.KTensor:
+		useBodyT = &ast.Term{Kind: ast.TRecv, X: ast.N("p"), Y: ast.N("q"), Z: ast.N("x"), K: tWait("p", tWait("q", tPrint(g.plabel("used"), tClose())))}
+	default:
+		useBodyT = tCase(ast.N("x"), br(b1.Brs[0].L, "p", tWait("p", tPrint(g.plabel("used"), tClose()))), br(b1.Brs[1].L, "p", tWait("p", tClose())))
+	}
+	g.Funs = append(g.Funs,
+		&ast.Decl{Kind: ast.DFun, Name: mk, Ty: tokT(), Body: mkBodyT},
+		&ast.Decl{Kind: ast.DFun, Name: relay, Ty: ackT(), Params: []ast.Param{{Name: "x", Ty: tokT()}}, Body: tFwd("x")},
+		&ast.Decl{Kind: ast.DFun, Name: use, Ty: one(), Params: []ast.Param{{Name: "x", Ty: tokT()}}, Body: useBodyT})
+	main := tNew("v", nil, tCall(mk), tNew("w", nil, tCall(relay, "v"), tNew("u", nil, tCall(use, "w"), tWait("u", tClose()))))
+	g.Prcs = append(g.Prcs, &ast.Decl{Kind: ast.DPrc, Providers: []string{fmt.Sprintf("relaymain%d", k)}, Ty: one(), Body: main})
+	g.feat("relay-between-equal-type-names")
 }
